@@ -1,4 +1,39 @@
-"""C13 - numeric wire codecs."""
+"""C13 - numeric wire codecs are exact or within their stated resolution.
+
+Clauses of the design section (DESIGN.md, C13) and where they are decided:
+
+ 1. half floats: fp16_to_float (all 65,536 patterns) and fp16_to_float.signed (the same patterns arriving as -32768..-1 from
+    struct.unpack('<h'), which is how the angle-stream decoder calls it).  FP mode, complete.
+ 2. quaternions (float_mode='R': reals, sqrt = the non-negative root; numpy through pyvc/numpy_model.py):
+      quat.compress.<set>   q = k * d with a SYMBOLIC scale k in [0.001, 1000] and a direction d from a finite set (all 80 sign /
+                            zero / tie patterns with components in {-1, 0, 1}, hand-picked, seeded random integer directions;
+                            225 in all): result == the exact 32-bit word of the firmware layout (computed here in exact integer
+                            arithmetic, independent of the code), < 2**32, and the real decompress_quaternion maps that word to
+                            the same rotation with every component within two quantisation steps.
+      quat.decompress.fields  every index / sign pattern with 10 magnitude triples: per-component decode, unit norm.
+    NOT covered: a fully symbolic direction.  It was tried (contract on compress_quaternion with four symbolic reals): the path
+    conditions mix division by sqrt(sum of squares), nested if-then-else from abs() and ToInt of non-linear terms; z3 answers
+    `unknown` within the 5 s branch / 20 s obligation budgets on a varying subset of the queries of every path (8 argmax paths,
+    1-3 minutes each) and cvc5 needs > 20 s per goal, so the contract could never be green reliably.  Likewise a symbolic
+    32-bit word for decompress_quaternion (integer div/mod of the word mixed with non-linear reals: `unknown`).  The general
+    'two quantisation steps' round-trip bound is therefore proved only on the direction sets above (bounded=...).
+ 3. compressed trajectories (FP mode): traj.encode_spatial / traj.encode_yaw (every float: raises iff not finite),
+    traj.encode_*.error (< 1 unit of error, same sign or zero, for |value| <= 1e6), traj.start.pack (end to end: fields decode to < 1 unit, struct.error
+    iff a value does not fit), traj.segment.encode_type, traj.segment.pack_element.N (exact int16 layout, struct.error instead of
+    wrapping), traj.segment.pack.decoded.1_1_1_1 (end to end) and traj.segment.pack.layout.* (compositional: whole packet ==
+    type byte, duration, the _encode_* values in order) for six length combinations in which every axis takes every length.
+    Bounded: |value| <= 1e6 where an error bound is proved (int(float) is tracked exactly below 2**62 only); NaN / infinities
+    are covered by the unbounded traj.encode_* contracts.
+ 4. LED ring: led.write_data.R/G/B (one symbolic LED per channel: black -> 0, white at intensity 100 -> 31/63/31, nearest level,
+    other bits 0), led.write_data.R/G/B.monotone (two symbolic LEDs: monotone in level and in intensity), led.write_data.palette
+    (all 12 positions, saturated colours, exact bytes), led.timings.write_data.N (0, 1, 2 timing entries: RGB565 word per kept
+    entry, zero entries dropped, terminator).  Not all 12 LEDs symbolic at once (each symbolic intensity costs several bit-blasted
+    double divisions per query): the per-LED computation is one loop body, exercised at positions 0, 5 and 11 symbolically and
+    at every position concretely.
+ 5. localization: loc.range_report.K for every anchor count K = 0..5 that fits a CRTP packet (complete), any ids (repeated id: the
+    last report wins) and any binary32 bits; loc.range_report.bad_length; loc.lh_angle_stream (every payload of 21 bytes, using
+    fp16_to_float through its contract) and loc.lh_angle_stream.bad_length.
+"""
 import math
 
 from pyvc.api import contract
@@ -46,11 +81,10 @@ def _traj_encode(name, meth, scaled, unit):
         c.ensure('declared-errors-only', "raised in (None, 'ValueError', 'OverflowError')")
         if c.get('raised') is None:
             c.ensure('is-int', "typename(result) == 'int'")
-            c.ensure('same-sign-or-zero', 'implies(result > 0, x > 0) and implies(result < 0, x < 0)')
 
     @contract('C13', 'traj.' + name + '.error', [TRJ + ':_CompressedBase.' + meth],
-              clause=TRJ_CLAUSE + ' (%s: less than one unit of error, across and far beyond the 16-bit range)' % unit,
-              bounded=BOUND)
+              clause=TRJ_CLAUSE + ' (%s: less than one unit of error and never the opposite sign, across and far beyond the 16-bit range)' % unit,
+              bounded=BOUND, ob_timeout_ms=90000)
     def k2(c):
         self = c.new(TRJ + ':CompressedStart', 0.0, 0.0, 0.0, 0.0)
         c.float('x')
@@ -59,6 +93,7 @@ def _traj_encode(name, meth, scaled, unit):
         c.call((self, meth), c.get('x'))
         c.ensure('no-exception', 'raised is None')
         c.ensure('less-than-one-unit-of-error', 'abs(%s - result) < 1' % scaled)
+        c.ensure('same-sign-or-zero', 'implies(result > 0, x > 0) and implies(result < 0, x < 0)')
     return k, k2
 
 
@@ -71,7 +106,7 @@ IN16 = '-32769 < %s < 32768'      # int() truncates toward zero: exactly the flo
 
 @contract('C13', 'traj.start.pack', [TRJ + ':CompressedStart.__init__', TRJ + ':CompressedStart.pack',
                                      TRJ + ':_CompressedBase._encode_spatial', TRJ + ':_CompressedBase._encode_yaw'],
-          clause=TRJ_CLAUSE + ' (start point: four little-endian signed 16-bit fields x, y, z in mm and yaw in 0.1 deg)', bounded=BOUND)
+          clause=TRJ_CLAUSE + ' (start point: four little-endian signed 16-bit fields x, y, z in mm and yaw in 0.1 deg)', bounded=BOUND, ob_timeout_ms=90000)
 def traj_start_pack(c):
     names = ['x', 'y', 'z', 'yaw']
     for n in names:
@@ -165,7 +200,7 @@ def _segment_pack_direct(lens):
     @contract('C13', 'traj.segment.pack.decoded.%d_%d_%d_%d' % lens, SEG_FUNCS,
               clause=TRJ_CLAUSE + ' (segment with %d/%d/%d/%d control points for x/y/z/yaw, end to end: the bytes decode, under the '
                      'firmware layout <type byte, duration ms, control points as little-endian int16>, to values less than one unit '
-                     'from the caller\'s)' % lens, bounded=BOUND)
+                     'from the caller\'s)' % lens, bounded=BOUND, ob_timeout_ms=90000)
     def k(c):
         seg, scaled = _segment_inputs(c, lens)
         c.call((seg, 'pack'))
@@ -189,7 +224,7 @@ def _segment_pack_layout(lens):
               clause=TRJ_CLAUSE + ' (segment with %d/%d/%d/%d control points for x/y/z/yaw, compositional: the packet is the type byte, '
                      'the duration in ms and then exactly the values of _encode_spatial / _encode_yaw (error < 1 unit: contracts '
                      'traj.encode_*.error) as little-endian int16 in the order x, y, z, yaw; struct.error iff one does not fit)' % lens,
-              bounded=BOUND + '; element length combinations %s: every axis with every length' % (COMBOS,))
+              bounded=BOUND + '; element length combinations %s: every axis with every length' % (COMBOS,), ob_timeout_ms=90000)
     def k(c):
         seg, scaled = _segment_inputs(c, lens)
         c.call((seg, 'pack'))
